@@ -450,16 +450,64 @@ def twins(sd):
     return out
 
 
+def seed_family(sd):
+    """networks in which something the writer de-duplicates or orders can tie: third-party CUSTOM operators (one code,
+    two codes, next to NPU operators that become 'ethos-u' custom operators), one CPU operator type in two versions,
+    many operator codes, several inputs and outputs.  Equal sort keys fall back to set/dict order, and the order of a
+    set of strings follows PYTHONHASHSEED, so this family is compiled alone under more hash seeds than the rest."""
+    out = []
+
+    def add(label, build):
+        n = netgen.Net(sd + 100 + len(out))
+        x = n.fm("in", [1, 8, 8, 8], is_input=True)
+        out.append({"family": "seed:" + label, "net": n.desc(build(n, x)), "opts": {}})
+
+    def custom(n, x, code, name):
+        src = n.t[x]
+        y = n.fm(name, n.shape(x), src["type"], src["scale"][0], src["zp"][0])
+        n.op("CUSTOM", [x], [y], custom_code=code, custom_options=[len(code), 2, 3, 4])
+        return y
+
+    def versioned(n, x, kind, version, name):
+        src = n.t[x]
+        y = n.fm(name, n.shape(x), src["type"], src["scale"][0], src["zp"][0])
+        n.op(kind, [x], [y], version=version)
+        return y
+
+    add("custom1+npu", lambda n, x: [n.conv(custom(n, n.conv(x, 8, 3), "ThirdPartyOp", "c0"), 8, 1)])
+    add("custom2+npu", lambda n, x: [n.conv(custom(n, custom(n, n.conv(x, 8, 3), "VendorAlpha", "c0"), "VendorBeta", "c1"), 8, 1)])
+    add("custom2", lambda n, x: [custom(n, custom(n, x, "VendorAlpha", "c0"), "zeta_op", "c1")])
+    add("custom3+npu", lambda n, x: [n.pool(custom(n, x, "Aa", "c0")), custom(n, n.conv(x, 8, 3), "Bb", "c1"),
+                                     custom(n, n.unary("TANH", x), "ThirdPartyOp", "c2")])
+    add("versions+npu", lambda n, x: [n.conv(versioned(n, versioned(n, n.conv(x, 8, 3), "ROUND", 1, "r1"), "ROUND", 2, "r2"), 8, 1)])
+    add("versions3", lambda n, x: [versioned(n, versioned(n, versioned(n, x, "ROUND", 1, "r1"), "ROUND", 3, "r3"),
+                                             "ROUND", 2, "r2")])
+    add("manycodes", lambda n, x: [n.eltwise("ADD", n.pool(n.conv(x, 8, 3), "MAX_POOL_2D", k=2, stride=1),
+                                             n.unary("LOGISTIC", n.dwconv(n.cpu_op(n.unary("TANH", x), "ROUND"), 3)), oscale=0.1),
+                                   custom(n, n.pool(x, "AVERAGE_POOL_2D"), "ThirdPartyOp", "c0")])
+    add("multi_io", lambda n, x: [n.conv(x, 8, 1, name="zeta"), n.eltwise("ADD", x, n.fm("beta_in", [1, 8, 8, 8], is_input=True), name="alpha"),
+                                  n.eltwise("MUL", n.fm("Gamma_in", [1, 8, 8, 8], is_input=True), x, name="Mid"),
+                                  custom(n, n.fm("aux", [1, 8, 8, 8], is_input=True), "ThirdPartyOp", "c0")])
+    return out
+
+
 def sweep_items(nets, tier):
     """histories over generated corpus networks (letter = main:s<i> with the entry's option point)."""
     items = []
     for i in range(len(nets)):
         x, p = "main:s%d" % i, "main:s%d" % ((i - 1) % len(nets))
         items += [((x,), 0), ((x,), 1), ((x, x), 0), ((p, x), 0)]
+        if nets[i]["family"].startswith("seed:"):
+            # string hashing differences need a few seeds to show: every entry point alone under more hash seeds
+            cb, cv = "convert_bytes:s%d" % i, "convert:s%d" % i
+            more = range(2, 6) if tier == "quick" else range(2, 10)
+            items += [((x,), s) for s in more] + [((cb,), s) for s in [0, 1] + list(more)]
+            if tier == "thorough":
+                items += [((cv,), s) for s in [0, 1] + list(more)]
         if tier == "thorough":
             items += [((x,), 2), ((x, p, x), 0), ((p, x), 1), (("convert_bytes:s%d" % i,), 0),
                       (("convert_bytes:s%d" % i, "convert_bytes:s%d" % i), 0)]
-    return items
+    return list(dict.fromkeys(items))
 
 
 # ------------------------------------------------------------------------------------- main
@@ -488,6 +536,8 @@ def _sweep_table(mdir, nets):
         o = ent["opts"]
         table["main:s%d" % i] = {"entry": "main", "model": paths["s%d" % i], "args": vela_run.cli_args(o), "mo": "s%d" % i,
                                  "acc": o.get("accel") or "ethos-u65-256", "family": ent["family"], "net": ent["net"]}
+        table["convert:s%d" % i] = {"entry": "convert", "model": paths["s%d" % i], "args": [], "mo": "s%d/default" % i,
+                                    "acc": "ethos-u65-256", "family": ent["family"], "net": ent["net"]}
         table["convert_bytes:s%d" % i] = {"entry": "convert_bytes", "model": paths["s%d" % i], "args": [], "mo": "s%d/default" % i,
                                           "acc": "ethos-u65-256", "family": ent["family"], "net": ent["net"]}
     return table
@@ -615,7 +665,7 @@ def _main(run, tier):
         run.sample({"history": list(h), "hashseed": s, "steps": [outcome(x) for x in r["steps"]]})
     # ---- S2C stage 2: generated networks with their option points
     nn = 8 if tier == "quick" else 200
-    nets = corpus.all_singles(sd) + twins(sd) + corpus.draw(nn, sd + 14)
+    nets = corpus.all_singles(sd) + twins(sd) + seed_family(sd) + corpus.draw(nn, sd + 14)
     rp2 = Replayer(run, _sweep_table(os.path.join(mroot, "sweep"), nets), mroot)
     items2 = sweep_items(nets, tier)
     n2 = rp2.run_all(items2)
